@@ -1,4 +1,5 @@
 From Coq Require Extraction.
 From Coq Require Import ExtrOcamlBasic.
-From NV Require Import Base.Witness Trunc.Stream Trunc.Cram Index.Layout.
-Extraction "model.ml" nv_types_witness obs_bam obs_bcf obs_bgzf obs_bamz obs_bcf_eager obs_bcfz obs_textz read_bai read_gzi obs_cram32.
+From NV Require Import Base.Witness Trunc.Stream Trunc.Cram Index.Layout Index.CsiLayout Index.TextIndex Trunc.IndexCut.
+Extraction "model.ml" nv_types_witness obs_bam obs_bcf obs_bgzf obs_bamz obs_bcf_eager obs_bcfz obs_textz read_bai read_gzi obs_cram32
+  read_csi read_tbi read_fai read_crai obs_csiz obs_tbiz.
